@@ -625,9 +625,10 @@ def run(ctx):
         "where well-formed (%d instantiations expected ill-formed are probe-compiled one by one), member forms and non-member forms on vector and std::array<_,3>, plus 10 instantiations with arguments at PTRDIFF_MAX. "
         "Constructors: pointer+count and pointer pair (for static extents every count in 0..N+2 and 5 huge ones), C array, std::array, const std::array, vector, const vector (static extents: every size 0..N+2), copy, assignment, "
         "conversions to const / to dynamic extent, make_span, default construction. "
-        "Oracle per request: valid (decided in 128-bit integer arithmetic) => returned view has data()==parent+o and size()==c, and is then probed: size_bytes, empty, extent, [] and at() for every i<size by address and value, "
-        "front/back, forward/reverse/const iteration, at(i) throws for every i in {size, size+1, size+2, 2^31, 2^32, 2^32+size, 2^61.., 2^62.., 2^63-1, 2^63, 2^63+size, SIZE_MAX-size, SIZE_MAX-1, SIZE_MAX}, "
-        "checked build: [i] for the same i and front/back on empty views are rejected; every element is written through [], at, iterator, reverse iterator, front, back and the whole block (guards included) compared with the model; "
+        "Oracle per request: valid (decided in 128-bit integer arithmetic) => returned view has data()==parent+o and size()==c, and is then probed: size_bytes, empty, extent, data()+size()==end(), and EVERY public element-access entry point (the list is cross-checked against the public members parsed from the header) "
+        "for every i<size by address and value: operator[], operator(), at(), begin()[i], *(begin()+i), cbegin()[i], rbegin()[size-1-i], crbegin()[size-1-i], data()[i], get<N>(view) for N in {-1, 0..nmax+2, PTRDIFF_MAX}, "
+        "front/back, forward/reverse/const iteration; at(i) throws for every i in {size, size+1, size+2, 2^31, 2^32, 2^32+size, 2^61.., 2^62.., 2^63-1, 2^63, 2^63+size, SIZE_MAX/sizeof(T), SIZE_MAX/sizeof(T)+1, SIZE_MAX-size, SIZE_MAX-1, SIZE_MAX}, "
+        "checked build: operator[](i), operator()(i) for the same i, get<N> for N<0 or N>=size, and front/back on empty views are rejected (probes that would bind a null reference on data()==nullptr views run in a forked process); every element is written through [], at, iterator, reverse iterator, front, back and the whole block (guards included) compared with the model; "
         "invalid => (checked build) an exception and no view. ASan (recover mode) is polled after every request. "
         "distinct_nontrivial = distinct request keys (64-bit FNV-1a of the key, merged over all binaries) that are invalid requests, or valid sub-view requests denoting a non-empty proper sub-range, or constructor/conversion requests "
         "over >= 1 element, plus distinct out-of-range index probes (request key, accessor, index); whole-range and empty views and in-range element probes are counted as trivial. evaluations = judged API calls (requests + probes) summed over all binaries."
